@@ -140,19 +140,19 @@ theorem implRun_shape_nocall (z : Zone) (e : LineEnv) :
   cases hz : z.isSome <;>
     simp [implRun, implStep, hz, timePiecesZone, timePiecesUtc, pieceItem, usWidth]
 
-theorem line_three (steps : List ImplStep) (z : Zone) (c : TimeCache) (t : TidState) (r : LogReq) (f : Bytes)
+theorem line_three (steps : List ImplStep) (z : Zone) (gen : Int) (c : TimeCache) (t : TidState) (r : LogReq) (f : Bytes)
     (hf : f.length ≤ 26)
-    (h : ∃ tail, (implRun z (lineEnv z c t r) steps).2 =
-      .str (readN 17 (lineEnv z c t r).timeText) :: .str (readN (usWidth z) (lineEnv z c t r).usText) :: .str f :: tail) :
-    ∃ stamp rest, stamp.length = 17 + usWidth z ∧ (logLineOf steps z c t r).text = stamp ++ f ++ rest := by
+    (h : ∃ tail, (implRun z (lineEnv z gen c t r) steps).2 =
+      .str (readN 17 (lineEnv z gen c t r).timeText) :: .str (readN (usWidth z) (lineEnv z gen c t r).usText) :: .str f :: tail) :
+    ∃ stamp rest, stamp.length = 17 + usWidth z ∧ (logLineOf steps z gen c t r).text = stamp ++ f ++ rest := by
   obtain ⟨tail, e⟩ := h
   have hw : usWidth z ≤ 9 := by unfold usWidth; split <;> omega
   simp only [logLineOf, lineItemsOf, e, List.cons_append]
-  obtain ⟨more, em⟩ := run_three (readN 17 (lineEnv z c t r).timeText) (readN (usWidth z) (lineEnv z c t r).usText) f
-    (tail ++ (if r.func.isSome then funcPieces else []).map (pieceItem (implRun z (lineEnv z c t r) steps).1) ++ r.msg
-      ++ finishPieces.map (pieceItem (implRun z (lineEnv z c t r) steps).1))
+  obtain ⟨more, em⟩ := run_three (readN 17 (lineEnv z gen c t r).timeText) (readN (usWidth z) (lineEnv z gen c t r).usText) f
+    (tail ++ (if r.func.isSome then funcPieces else []).map (pieceItem (implRun z (lineEnv z gen c t r) steps).1) ++ r.msg
+      ++ finishPieces.map (pieceItem (implRun z (lineEnv z gen c t r) steps).1))
     (by simp only [readN_length, kSmallBuffer]; omega)
-  refine ⟨readN 17 (lineEnv z c t r).timeText ++ readN (usWidth z) (lineEnv z c t r).usText, more, by simp [readN_length], ?_⟩
+  refine ⟨readN 17 (lineEnv z gen c t r).timeText ++ readN (usWidth z) (lineEnv z gen c t r).usText, more, by simp [readN_length], ?_⟩
   simp only [List.append_assoc] at em ⊢
   exact em
 
@@ -196,6 +196,65 @@ theorem implAsserts_of (z : Zone) (e : LineEnv) (h0 : e.req.tid ≠ 0) (h : e.ti
 theorem tidField_fresh : tidField TidState.fresh = List.replicate 6 0 ∧ ¬ tidAssert TidState.fresh := by decide
 
 theorem tidCachedBeforeUse_tie : tidCachedBeforeUse = cachedBeforeUse implSteps := by decide
+
+
+/-! ### the cached second and the zone generation -/
+
+/-- what a thread's cached second promises: it was formatted under a generation that is not in the future, and
+when that generation is still the current one (no `setTimeZone` since) the text is the one of the configured zone -/
+def TimeInv (s : LogState) : Prop :=
+  s.cache.zoneGen ≤ s.gen ∧
+  (s.cache.lastSecond ≠ 0 → s.cache.zoneGen = s.gen → s.cache.text = secondText s.zone s.cache.lastSecond)
+
+theorem timeInv_init (t : TidState) : TimeInv (LogState.init t) := by
+  refine ⟨?_, fun h => absurd rfl h⟩
+  show lastZoneGenInit ≤ zoneGenInit
+  decide
+
+theorem cacheMiss_iff (sec last gen lastGen : Int) : cacheMiss sec last gen lastGen ↔ (sec ≠ last ∨ gen ≠ lastGen) := by
+  unfold cacheMiss; rfl
+
+theorem cacheMiss_fresh (gen : Int) (us : Int) (h : splitSeconds us ≠ 0) :
+    cacheMiss (splitSeconds us) TimeCache.fresh.lastSecond gen TimeCache.fresh.zoneGen :=
+  (cacheMiss_iff _ _ _ _).2 (Or.inl h)
+
+theorem timeInv_hit_or_miss (s : LogState) (r : LogReq) (hinv : TimeInv s) (hr : splitSeconds r.us ≠ 0) :
+    cacheMiss (splitSeconds r.us) s.cache.lastSecond s.gen s.cache.zoneGen ∨ s.cache.text = secondText s.zone (splitSeconds r.us) := by
+  by_cases hm : cacheMiss (splitSeconds r.us) s.cache.lastSecond s.gen s.cache.zoneGen
+  · exact Or.inl hm
+  · right
+    rw [cacheMiss_iff] at hm
+    have h1 : splitSeconds r.us = s.cache.lastSecond := Classical.not_not.1 (fun h => hm (Or.inl h))
+    have h2 : s.gen = s.cache.zoneGen := Classical.not_not.1 (fun h => hm (Or.inr h))
+    rw [h1]
+    exact hinv.2 (by rw [← h1]; exact hr) h2.symm
+
+theorem timeInv_step (s : LogState) (op : LogOp) (hinv : TimeInv s)
+    (hop : ∀ r, op = .log r → splitSeconds r.us ≠ 0) : TimeInv (logStep s op).1 := by
+  cases op with
+  | setZone z =>
+    have hb : zoneGenBumped = true := by decide
+    simp only [logStep, hb, if_true]
+    exact ⟨by have := hinv.1; show s.cache.zoneGen ≤ s.gen + 1; omega,
+           fun _ h => by have := hinv.1; have : s.cache.zoneGen = s.gen + 1 := h; omega⟩
+  | log r =>
+    have hr := hop r rfl
+    have hs : cacheStoresGen = true := by decide
+    simp only [logStep, logLine, logLineOf, cacheStep]
+    by_cases hm : cacheMiss (splitSeconds r.us) s.cache.lastSecond s.gen s.cache.zoneGen
+    · simp only [hm, if_true, hs]
+      exact ⟨Int.le_refl _, fun _ _ => rfl⟩
+    · simp only [hm, if_false]
+      exact hinv
+
+theorem timeInv_after (ops : List LogOp) : ∀ s : LogState, TimeInv s →
+    (∀ r, LogOp.log r ∈ ops → splitSeconds r.us ≠ 0) → TimeInv (logAfter s ops) := by
+  induction ops with
+  | nil => intro s h _; exact h
+  | cons op rest ih =>
+    intro s h hops
+    simp only [logAfter, List.foldl_cons]
+    exact ih _ (timeInv_step s op h (fun r e => hops r (by simp [e]))) (fun r hr => hops r (by simp [hr]))
 
 /-- the request of the F18 witness (corpus/C17/F18-setTimeZone-inside-cached-second.case) at instant `us` -/
 def f18Req (us : Int) : LogReq :=
